@@ -127,6 +127,10 @@ def recipes1d(draw, types=SEG, embed=3):
             break
     else:
         d = [1.5, 0.0, 0.0]
+    if draw(st.integers(0, 3)) == 0:
+        # a bar lying on the x axis (the mesh is then one-dimensional in a one-dimensional space), drawn in either direction
+        p1 = [p1[0], 0.0, 0.0]
+        d = [draw(st.sampled_from([-2.5, -1.0, 1.5, 3.0])), 0.0, 0.0]
     ne = draw(st.integers(2, 5))
     perm = draw(st.one_of(st.none(), st.integers(0, 999)))
     return dict(p1=p1, d=d, ne=ne, elemType=et, perm=perm)
